@@ -37,7 +37,7 @@ func genHist(t *rapid.T) HistCase {
 	var c HistCase
 	maxLogN := 7
 	if h.Thorough() && rapid.IntRange(0, 9).Draw(t, "largeN") == 0 {
-		maxLogN = 10
+		maxLogN = 12
 	}
 	kind := []string{"uniform", "gauss", "gauss", "ternaryP", "ternaryH", "ternaryH"}[rapid.IntRange(0, 5).Draw(t, "distKind")]
 	c.Ring = genRing(t, 4, maxLogN, 4, false)
@@ -227,7 +227,12 @@ func checkSample(c HistCase, what, viewClass string, res [][]uint64, qs []uint64
 			first := -1
 			for i, v := range x {
 				if new(big.Int).Abs(v).Cmp(B) > 0 {
-					if v.Sign() > 0 || new(big.Int).Abs(v).Cmp(env) > 0 {
+					// a positive lift may be a negative sample wrapped by a modulus that is not far above 40 sigma
+					neg := v
+					if v.Sign() > 0 {
+						neg = new(big.Int).Sub(v, Q)
+					}
+					if new(big.Int).Abs(neg).Cmp(env) > 0 {
 						only = false
 						bad = i
 						break
